@@ -239,8 +239,9 @@ def find_fn(src: str, m: str, ctx, name: str, nth: int = 0):
             depth -= 1
         elif c == '{' and depth == 0:
             # `{ N / 8 }` in a const-generic argument position is not the body
-            if m[:i].rstrip().endswith(('<', ',')):
-                i = match_brace(m, i)
+            ic = match_brace(m, i)
+            if m[:i].rstrip().endswith(('<', ',')) and m[ic + 1:].lstrip()[:1] in ('>', ','):
+                i = ic
             else:
                 break
         elif c == ';' and depth == 0:
@@ -759,8 +760,9 @@ def _emit_fn(g, meta, tmpl, rel, src, m, ctx, name, kv, subs):
         elif c in ')]':
             depth -= 1
         elif c == '{' and depth == 0:
-            if mm[:k].rstrip().endswith(('<', ',')):
-                k = match_brace(mm, k)
+            kc = match_brace(mm, k)
+            if mm[:k].rstrip().endswith(('<', ',')) and mm[kc + 1:].lstrip()[:1] in ('>', ','):
+                k = kc      # a const-generic argument `{ N }`, not the body
             else:
                 break
         k += 1
